@@ -47,14 +47,20 @@ class Dim:
         return int(base[1:]) * k
 
 
-def gen_dim(rng, used, opaque_count=None):
+def gen_dim(rng, used, opaque_count=None, freed=None):
     while True:
-        name = c08.rand_text(rng, rng.choice([1, 3, 8, 31, 32]), "abcdefghijklmnopqrstuvwxyz_0123456789")
+        if freed and rng.random() < 0.6:
+            # a name that was used by a dimension removed earlier in this history (now with another type, usually)
+            name = freed.pop(rng.randrange(len(freed)))
+        else:
+            name = c08.rand_text(rng, rng.choice([1, 3, 8, 31, 32]), "abcdefghijklmnopqrstuvwxyz_0123456789")
+            if len(name) < 32 and rng.random() < 0.15:
+                name += " "              # names and descriptions are kept as given, a trailing blank included
         if name not in used and name not in ("x", "y", "z", "X", "Y", "Z"):
             break
     used.add(name)
     desc = c08.rand_text(rng, rng.choice([0, 1, 10, 32]), "abcdefgh XYZ-.")
-    if desc != desc.rstrip():
+    if desc != desc.rstrip() and rng.random() < 0.6:
         desc = desc.rstrip() + "." if len(desc.rstrip()) < 32 else desc.rstrip()
     if opaque_count is not None or rng.random() < 0.3:
         cnt = opaque_count if opaque_count is not None else rng.choice([4, 5, 7, 8, 12, 16, 24, 28, 31, 32, 100, 231, 255, rng.randrange(4, 256)])
@@ -114,14 +120,14 @@ def run(ck):
         n = ck.rng.choice([0, 1, 3, 5])
         las = fio.make_las(ck.rng, minor, fmt, n)
         std = laspy.PointFormat(fmt).size
-        used, dims = set(), []
+        used, dims, freed = set(), [], []
         ops_tok, flags, hist = [], [], []
         raw0 = las.points.array.tobytes()
         forced = sizes[hi - (n_hist - len(sizes))] if hi >= n_hist - len(sizes) else None
         steps = 2 if forced is not None else ck.rng.randrange(1, 9)
         ok_history = True
         for step in range(steps):
-            k = "add" if (step == 0 or forced is not None and step == 0) else ck.rng.choice(["add", "add", "remove", "remove_bad", "assign", "roundtrip"])
+            k = "add" if (step == 0 or forced is not None and step == 0) else ck.rng.choice(["add", "add", "remove", "remove", "remove_bad", "remove_dup", "assign", "roundtrip"])
             if forced is not None:
                 k = "add" if step == 0 else "roundtrip"
             inp = {"kind": "history", "minor": minor, "fmt": fmt, "n": n, "history": hist + [k]}
@@ -132,7 +138,7 @@ def run(ck):
             fk = "C13:" + k
             try:
                 if k == "add":
-                    new = [gen_dim(ck.rng, used, forced if forced is not None else None) for _ in range(1 if forced is not None else ck.rng.choice([1, 1, 2]))]
+                    new = [gen_dim(ck.rng, used, forced if forced is not None else None, freed) for _ in range(1 if forced is not None else ck.rng.choice([1, 1, 2]))]
                     if any(d.type_id == 0 for d in new):
                         fk += ":opaque%d" % next(d.count for d in new if d.type_id == 0)
                     if len(new) == 1:
@@ -149,16 +155,38 @@ def run(ck):
                         # names given in the opposite of record order (the last dimensions first)
                         victims.sort(key=lambda d: -dims.index(d))
                     ck.count("remove_%d_names" % len(victims))
-                    if len(victims) == 1:
+                    if len(victims) == 1 and ck.rng.random() < 0.7:
                         las.remove_extra_dim(victims[0].name)
+                    elif ck.rng.random() < 0.25:
+                        # the names given as a one-shot iterable
+                        ck.count("remove_names_as_generator")
+                        las.remove_extra_dims(d.name for d in victims)
                     else:
                         las.remove_extra_dims([d.name for d in victims])
                     dims = [d for d in dims if d not in victims]
                     for d in victims:
                         before_vals.pop(d.name)
+                        used.discard(d.name)
+                        freed.append(d.name)
                     ops_tok.append("R=" + "|".join(hx(d.name.encode()) for d in victims))
                     flags.append("1")
                     hist.append("remove " + ",".join(d.name for d in victims))
+                elif k == "remove_dup" and dims:
+                    # a name given twice: either it is removed (once) or the call raises and changes nothing
+                    victims = ck.rng.sample(dims, min(len(dims), ck.rng.choice([1, 2])))
+                    names = [d.name for d in victims] + [victims[0].name]
+                    ck.rng.shuffle(names)
+                    try:
+                        las.remove_extra_dims(names)
+                        dims = [d for d in dims if d not in victims]
+                        for d in victims:
+                            before_vals.pop(d.name)
+                            used.discard(d.name)
+                        ck.count("remove_dup:removed")
+                    except LaspyException:
+                        ck.count("remove_dup:raised")
+                    hist.append("remove_dup " + ",".join(names))
+                    raw0 = None
                 elif k == "remove_bad":
                     bad = ck.rng.choice(["X", "intensity", "classification", "no_such_dim", "gps_time"])
                     names = [bad] + ([dims[0].name] if dims and ck.rng.random() < 0.5 else [])
